@@ -504,8 +504,12 @@ impl ThreadPool {
         {
             group_records.pools.remove(self.key);
         }
-        drop(group_records);
+        // The group's lock is held until the pool is marked as shutting
+        // down (same lock order as ThreadGroup::shut_down). Otherwise a
+        // concurrent ThreadGroup::shut_down could find the pool already
+        // removed and return while the pool still accepts tasks.
         self.shut_down_without_removing();
+        drop(group_records);
     }
 
     /// Shuts down the `ThreadPool`, without removing it from its parent
